@@ -70,3 +70,21 @@ Theorem C01_every_call_keeps_authentication : forall now c op S, AInv S c ->
   let '(c', _) := step now c op in AInv (sigs_of_call op ++ S) c'.
 Proof. exact step_AInv. Qed.
 Print Assumptions C01_every_call_keeps_authentication.
+
+(* ---- both sides agree, on every delivery schedule ----
+   For every way one side can start an exchange (query, whitespace tag, error-triggered, Send under require-encryption,
+   the same with a second user message at any moment, asking again after End, refreshes), every pair of version policies
+   sharing a version, both outcomes of the commit comparison and EVERY order in which the messages in flight are
+   delivered: when the network is quiet both conversations are encrypted with the same session id, show complementary
+   halves of it, each reports the other's long-term key, and each side's record of the peer's newest D-H key is the key the
+   peer holds under that id.  (Verified exhaustive exploration of the two-party machine; [explore_agree_sound] by
+   induction, the exploration by kernel evaluation.) *)
+From OTR Require Import Proto.Explore.
+Theorem C01_explore_agree_sound : forall n x, explore_agree n x = true -> all_schedules_agree n x.
+Proof. exact explore_agree_sound. Qed.
+Print Assumptions C01_explore_agree_sound.
+Theorem C01_both_sides_agree_on_every_schedule :
+  forallb check_config_agree (configs [SQueryOne; SWhitespace; SErrorStart; SRequireSend; SRefresh; SRefreshBoth;
+                                       SWhitespaceTwice; SRequireSendTwice; SAfterEnd; SAfterEndOther]) = true.
+Proof. vm_compute; reflexivity. Qed.
+Print Assumptions C01_both_sides_agree_on_every_schedule.
